@@ -949,6 +949,17 @@ func (e *SpecEnv) callExpr(n *Node) *SVal {
 			cs = append(cs, "(forall (("+r+" Int)) (=> "+sAnd(guard...)+" (= (select "+t1+" "+r+") (select "+t0+" "+r+"))))")
 		}
 		return boolVal(sAnd(cs...))
+	case "param":
+		// param(x): the value parameter x had on entry, where the name x itself now denotes a
+		// loop-carried or reassigned variable
+		need(1)
+		if args[0].Op != "id" {
+			sfail("param(name)")
+		}
+		if v, ok := fr.params[args[0].Name]; ok {
+			return v
+		}
+		sfail("param(%s): no such parameter", args[0].Name)
 	case "bytesof":
 		// bytesof(s): the bytes of string s as a slice value, only for passing to pure functions
 		// (what the code writes as f([]byte(s)))
